@@ -231,6 +231,61 @@ theorem memory_stays_bounded (wt : K → K) (endTime : K) (fuel : Nat) (w : Worl
 example : Mem (Reg.init (1 : ℚ) 180 1 4 15 0) := by
   constructor <;> decide
 
+/-- What the command line fixed: the two memory bounds, the inertia of the first row and the handstroke gap. -/
+def cfgOf (r : Reg K) : Int × Int × K × K := (r.minBells, r.maxBells, r.initialInertia, r.gap)
+
+theorem relerp_cfg (q : Reg K) (fit : K × K) (i : K) : cfgOf (q.relerp fit i) = cfgOf q := by
+  unfold Reg.relerp
+  cases q.start <;> rfl
+
+theorem addDataPoint_cfg (r : Reg K) (reg : List (K × K × K) → K × K) (row place : Nat) (t w : K) :
+    cfgOf (r.addDataPoint reg row place t w) = cfgOf r := by
+  unfold Reg.addDataPoint
+  simp only []
+  by_cases h1 : Num.eqb (if 0 < row then r.preferredInertia else r.initialInertia) (Num.ofNat 1 : K) = true
+  · rw [if_pos h1]; rfl
+  · rw [if_neg h1]
+    by_cases h2 : r.minBells ≤ ((r.newDataSet row place t w).length : Int)
+    · rw [if_pos h2]; exact relerp_cfg _ _ _
+    · rw [if_neg h2]; rfl
+
+/-- No operation on the rhythm touches its configuration. -/
+theorem cfgInvariant (c : Int × Int × K × K) : RegInvariant (fun r : Reg K => cfgOf r = c) :=
+  { bellRing := (by
+      intro r wt g bell hand t h
+      unfold Reg.onBellRing
+      split
+      · exact h
+      · rename_i row place _
+        simp only []
+        have h1 : cfgOf (if Num.eqb (r.blowTime row place) (Num.ofNat 0) = true then { r with start := .fin t } else r) = c := by
+          split <;> exact h
+        exact (addDataPoint_cfg _ g _ _ _ _).trans h1)
+    init := (by
+      intro r g stage ut t h
+      unfold Reg.initialiseLine
+      split
+      · exact (addDataPoint_cfg (r.resetForTouch stage) g 0 0 t _).trans h
+      · exact h)
+    expect := fun _ _ _ _ _ h => h
+    speed := (by
+      intro r s t h
+      unfold Reg.changePealSpeed
+      simp only []
+      split
+      · exact h
+      · split <;> exact h)
+    flag := fun _ _ h => h
+    inertia := fun _ _ h => h }
+
+/-- **The values given on the command line are the values used, throughout**: in every state of every run, for all
+events (settings from the server included - they reach the peal speed and the running inertia only), the rhythm's
+memory bounds (`-X`, and the minimum of four), the inertia of the first row and the handstroke gap are what the
+rhythm was created with (`cli_memory` below says what that is). -/
+theorem configuration_never_changes (wt : K → K) (endTime : K) (fuel : Nat) (w : World K) (events : List (K × Ev)) :
+    cfgOf (World.run wt endTime fuel w events).1.rh.reg = cfgOf w.rh.reg :=
+  (cfgInvariant (cfgOf w.rh.reg)).run wt endTime fuel w events rfl
+
 end System
 
 /-! ### The command line (`Model/Cli.lean`: `console_main`) -/
